@@ -13,8 +13,8 @@ EXTENDS Lifecycle, Json, IOUtils
 Steps == ndJsonDeserialize(IOEnv.LC_STEPS)
 Cases == JsonDeserialize(IOEnv.LC_CASES)
 Plan  == Cases.plan
-K == MkK(Plan.D, Plan.S, Plan.W, Plan.maxd, SeqToSet(Plan.cd), SeqToSet(Plan.kinds), Plan.pairs,
-         SeqToSet(Plan.bury), Plan.rev, Plan.mir, Plan.mode, Plan.empty)
+K == WithCrash(MkK(Plan.D, Plan.S, Plan.W, Plan.maxd, SeqToSet(Plan.cd), SeqToSet(Plan.kinds), Plan.pairs,
+         SeqToSet(Plan.bury), Plan.rev, Plan.mir, Plan.mode, Plan.empty), Plan.crash)
 RC(c) == CASE c = 1 -> "ok" [] c = 2 -> "panic" [] OTHER -> "err"
 
 ChanFields == {"ph", "bh", "fg", "fh", "dsh", "mch", "uch", "ct", "our", "ht", "sl", "csh"}
@@ -35,13 +35,14 @@ Next == /\ l <= Len(Steps)
 Spec == Init /\ [][Next]_<<l, g>>
 C15a == Inv_C15a(g)
 C15b == Inv_C15b(g)
+C15c == Inv_C15c(g)
 \* after every step a signer restored from a copy of the store equals the running one (see ImplLifecycle)
 RestartEq(e) == /\ ~e.rs.failed
                 /\ e.rs.mark = e.post.mark
                 /\ \A d \in 1..K.maxd : \A f \in ChanFields : e.rs.chans[d][f] = e.post.chans[d][f]
                 /\ e.rs.pst = e.post.pst /\ e.rs.lis = e.post.lis
                 /\ e.rs.feq
-C15r == l > 1 => LET e == Steps[l - 1] IN e.rc = 2 \/ e.post.dead \/ RestartEq(e)
+C15r == l > 1 => LET e == Steps[l - 1] IN e.rc = 2 \/ (~e.post.dead /\ RestartEq(e))
 
 Idx == DOMAIN Steps
 Conforms(e) ==
@@ -49,7 +50,7 @@ Conforms(e) ==
       o  == Step(K, st, ReqOf(e)) IN
   /\ Enabled(K, st, ReqOf(e))
   /\ o.rc = RC(e.rc)
-  /\ e.rc # 2 => o.s = Abs(e.post) /\ Consistent(e.post)
+  /\ e.rc # 2 /\ ~e.post.dead => o.s = Abs(e.post) /\ Consistent(e.post)
 Divergent == {i \in Idx : ~Steps[i].pre.dead /\ ~Conforms(Steps[i])}
 Broken    == {i \in Idx : i > 1 /\ Steps[i].step > 0 /\ Steps[i].pre # Steps[i - 1].post}
 Shown     == {i \in Divergent : Cardinality({j \in Divergent : j < i}) < 8}
